@@ -12,6 +12,8 @@ pub use vcore::rval::{RVal, ERR_TEXTS};
 
 use microscpi::{Adapter, Error, ErrorQueue, StaticErrorQueue};
 
+pub mod props;
+
 pub type Log = Rc<RefCell<Vec<Ev>>>;
 
 /// Implemented by every generated interface.
